@@ -3,14 +3,3 @@ NOTES = ("Every check is `./check <id>`: it rebuilds the harness from /repo's wo
          "theorems, audits axioms, runs the model/implementation correspondence and writes evidence/<id>.json. "
          "See DESIGN.md.")
 NOT_YET = {}
-LEVEL_TEXT = {
-    "C19": {
-        "design_ref": "DESIGN.md 3.C19",
-        "technique": "Lean 4 theorems (induction-free doubling lemma pair_sat over an executable model) + differential correspondence with the Rust parsers",
-        "text": "Machine-checked proof, for all buffers, cursors, widths {1,2,4,8}, byte orders and signedness, that the model of "
-                "UInt*P/Int*P/ByteVecP returns the denoted value with span [i,i+w) and cursor i+w, or end-of-buffer with the cursor "
-                "unmoved, and never reaches a panic (the debug-build `+` cannot overflow). The model mirrors the Rust composition "
-                "(two halves, restore on second failure) and is tied to the code by an exhaustive 8/16-bit and random 32/64-bit "
-                "correspondence run on every check.",
-    },
-}
